@@ -135,3 +135,12 @@ package searcher
 //@   requires s != nil && ctx != nil && s.initialized && s.mustSearcher != nil
 //@   requires [must-cursor] (lastSome[iref(s.mustSearcher)] <==> s.currMust != nil) && (s.currMust != nil ==> lastNum[iref(s.mustSearcher)] == s.currMust.Number)
 //@   modifies *
+
+// numeric range query: the integer interval handed to the range decomposition is exactly the
+// requested one (open ends at the infinities, exclusive end points moved by one encoding step)
+//@ func NewNumericRangeSearcher
+//@   props C10
+//@   mode bv fp
+//@   requires !isNaN(min) && !isNaN(max)
+//@   requires forall v int64 :: !cov[v]
+//@   at call splitInt64Range: assert [interval-is-the-requested-one] forall v int64 :: !isNaN(frombits(i2fbits(v))) ==> ((minBound <= v && v <= maxBound) <==> ((isNegInf(min) || ite(inclusiveMin, v >= f2ibits(bits(min)), v > f2ibits(bits(min)))) && (isPosInf(max) || ite(inclusiveMax, v <= f2ibits(bits(max)), v < f2ibits(bits(max))))))
